@@ -167,6 +167,9 @@ def instances(tier):
     for sid in ("mux-lowprio-sibling", "mux-deep-input-a"):
         out.append(Instance("C01", "sys_common:s_run", dict(shape=mux_shapes()[sid], oracle="c01"), name="S/" + sid, uf=True,
                             cover=["solved"], weight=20, max_paths=3000))
+    from ..shapes import real_loop_shapes
+    for sid, shape in real_loop_shapes().items():
+        out.append(Instance("C01", "sys_common:s_real_loop", dict(shape=shape, oracle="c01"), name="RL/" + sid, uf=True, cover=["solved"], weight=20))
     from . import xval
     out += xval.instances("C01", tier)
     if tier == "thorough":
